@@ -7,6 +7,7 @@ import (
 	"context"
 	"crypto/ecdh"
 	"crypto/rand"
+	"crypto/x509"
 	"strings"
 	"fmt"
 	mathrand "math/rand"
@@ -54,6 +55,8 @@ func TestRaceStress(t *testing.T) {
 			raceCrypto(t, rng)
 		case "C10":
 			raceRotation(t, rng)
+		case "C04":
+			raceEnroll(t, rng)
 		default:
 			t.Fatalf("no race stress for %s", prop)
 		}
@@ -547,6 +550,92 @@ func raceRotation(t *testing.T, rng *mathrand.Rand) {
 				f := forgeries[r2.Intn(len(forgeries))]
 				if _, err := rotation.RotateNodeCredentials(ctx, st, proto.Clone(f.req).(*types.RotateNodeCredentialsRequest)); err == nil {
 					bad("a request that must be refused was honored under parallel use: %s", f.name)
+				}
+			}
+		}()
+	}
+	close(start)
+	wg.Wait()
+}
+
+// raceEnroll (C04, auxiliary): many goroutines enroll fresh nodes (node-led: authorize, fetch, handle the response)
+// against one server storage at the same time, the way a server does from its connection goroutines. Facts that load
+// cannot disturb (every node has its own key, so no two enrollments touch the same record): each enrollment completes; the
+// record returned and the record stored are filed under the key ID derived - independently, crypto/hkdf - from that
+// node's own certificate key and hold that key; the certificates the node ends up with are for that key and named by
+// that key ID.
+func raceEnroll(t *testing.T, rng *mathrand.Rand) {
+	ctx := context.Background()
+	st, _ := inmem.New(ctx)
+	if _, err := rotation.RotateRootCertificates(ctx, st); err != nil {
+		t.Fatal(err)
+	}
+	bad := func(format string, a ...any) {
+		fmt.Printf("ENROLL-VIOLATION "+format+"\n", a...)
+		t.Fail()
+	}
+	var wg sync.WaitGroup
+	start := make(chan struct{})
+	n := 8 + rng.Intn(16)
+	for g := 0; g < n; g++ {
+		wg.Add(1)
+		g := g
+		go func() {
+			defer wg.Done()
+			<-start
+			for j := 0; j < 6; j++ {
+				ns, _ := inmem.New(ctx)
+				c, err := types.NewNodeCredentials(ctx, ns)
+				if err != nil {
+					bad("new credentials: %v", err)
+					return
+				}
+				want := keyIDSlow(c.CertificatePublicKeyPkix)
+				req, err := c.CreateFetchNodeCredentialsRequest(ctx)
+				if err != nil {
+					bad("fetch request: %v", err)
+					return
+				}
+				s, _ := structpb.NewStruct(map[string]any{"g": float64(g), "j": float64(j)})
+				ni, err := registration.AuthorizeNode(ctx, st, req, nodeenrollment.WithState(s))
+				if err != nil {
+					bad("authorizing a fresh node failed while others enrolled: %v", err)
+					return
+				}
+				if ni.Id != want || !bytes.Equal(ni.CertificatePublicKeyPkix, c.CertificatePublicKeyPkix) {
+					bad("the record returned for a node is filed under %q, its key's ID is %q", ni.Id, want)
+				}
+				resp, err := registration.FetchNodeCredentials(ctx, st, req)
+				if err != nil {
+					bad("fetch of an authorized node failed while others enrolled: %v", err)
+					return
+				}
+				c2, err := c.HandleFetchNodeCredentialsResponse(ctx, ns, resp)
+				if err != nil {
+					bad("the node does not accept the server's answer: %v", err)
+					return
+				}
+				stored, err := types.LoadNodeInformation(ctx, st, want)
+				if err != nil {
+					bad("no record under the node's own key ID %q after enrollment: %v", want, err)
+					return
+				}
+				if !bytes.Equal(stored.CertificatePublicKeyPkix, c.CertificatePublicKeyPkix) || !proto.Equal(stored.State, s) {
+					bad("the record under key ID %q holds another node's key or state (%v)", want, stored.State)
+				}
+				if len(c2.CertificateBundles) == 0 {
+					bad("enrollment completed without certificates")
+				}
+				for _, b := range c2.CertificateBundles {
+					cert, err := x509.ParseCertificate(b.CertificateDer)
+					if err != nil {
+						bad("unparsable certificate: %v", err)
+						continue
+					}
+					pk, _ := x509.MarshalPKIXPublicKey(cert.PublicKey)
+					if !bytes.Equal(pk, c.CertificatePublicKeyPkix) || cert.Subject.CommonName != want {
+						bad("the node's certificate is named %q / holds another key; the node's key ID is %q", cert.Subject.CommonName, want)
+					}
 				}
 			}
 		}()
